@@ -63,31 +63,32 @@ class AbstractProcess:
 
     @staticmethod
     def ordering(trace):
-        """C10: after a run call that produced output o, the next transport calls are write(o), flush, before any read;
-        nothing else is ever written; the response buffer is empty whenever run is called"""
-        pending = None
+        """C10: whatever a run call produced is written (in order, nothing else) and flushed before the transport is asked for more
+        input; the response buffer is empty whenever run is called.  Several writes before one flush are fine."""
+        owed = []          # response bytes produced by run and not yet written
+        unflushed = False
         for t in trace:
             if t[0] == 'run':
                 if t[4] != 0:
                     return f'response buffer not empty ({t[4]} bytes) when run is called'
-                if pending is not None:
-                    return 'run called again before the previous response was written'
-                pending = ['w', list(t[3])] if t[3] else None
-            elif t[0] == 'w':
-                if pending is None or pending[0] != 'w':
-                    return f'unexpected write of {t[1]}'
-                if list(t[1]) != pending[1]:
-                    return f'wrote {t[1]} but run produced {pending[1]}'
-                pending = ['f']
+                owed += list(t[3])
+            elif t[0] in ('w', 'w!'):
+                data = list(t[1])
+                if data != owed[:len(data)]:
+                    return f'wrote {data} but the pending response bytes are {owed}'
+                owed = owed[len(data):]
+                unflushed = unflushed or bool(data)
+                if t[0] == 'w!':
+                    return None
             elif t[0] == 'f':
-                if pending is None or pending[0] != 'f':
-                    return 'unexpected flush'
-                pending = None
+                unflushed = False
+            elif t[0] == 'f!':
+                return None
             elif t[0] in ('r', 'r!'):
-                if pending is not None:
-                    return 'asked the transport for more input before the response was written and flushed'
-            elif t[0] in ('w!', 'f!'):
-                pending = None
+                if owed:
+                    return 'asked the transport for more input before the response was written'
+                if unflushed:
+                    return 'asked the transport for more input before the written response was flushed'
         return None
 
     def body(s):
@@ -232,19 +233,13 @@ def _instance_shows(run, v, cv, base):
 
 
 def order_violation_native(tr):
-    """on a real trace: a write must be followed by a flush before the next read; reads must not happen while a
-    response is pending (a response is pending between 'w' and 'f')"""
-    pending = False
+    """on a real trace: no read while written bytes are unflushed (several writes before one flush are fine)"""
+    unflushed = False
     for t in tr:
         if t.startswith('w'):
-            if pending:
-                return 'two writes without flush'
-            pending = True
+            unflushed = True
         elif t == 'f':
-            if not pending:
-                return 'flush without write'
-            pending = False
-        elif t.startswith('r'):
-            if pending:
-                return 'read before flush'
+            unflushed = False
+        elif t.startswith('r') and unflushed:
+            return 'read before flush'
     return None
